@@ -179,6 +179,17 @@ func rulesC20(c *Ctx) {
 						}
 					}
 				}
+				// the raw bytes are the decoded string exactly when they contain no backslash: accept a raw
+				// store on an edge where that absence is known (IndexByte(v,'\\') < 0 / == -1, !Contains ...)
+				if !okU {
+					raw := mu.Value
+					if cv, isCv := resolve(raw).(*ssa.Convert); isCv {
+						raw = cv.X
+					}
+					if facts.HoldsOnAllEdges(b, func(fs factSet) bool { return noBackslashIn(fs, resolve(raw)) }) {
+						okU = true
+					}
+				}
 				c.Check(okU, "R2", fmt.Sprintf("string leaf store #%d in the JSON walk", nStr), mu.Pos(), "value = result of an unescaping function, error checked",
 					"a string leaf is stored as "+originsString(os)+" — escapes such as \\\" \\n \\u00f3 stay in the value (differs from a standard JSON decoder)")
 			case jsonNum:
@@ -371,84 +382,179 @@ func rulesC20(c *Ctx) {
 		c.Bad("R5", "fsi18loader.Load", 0, "anchor not found")
 		return
 	}
+	// the per-file callback: the function value stored into LoopData.OnFile (a literal, a method value
+	// or a named function); its work may be spread over private helpers
 	var onFile *ssa.Function
-	for _, g0 := range withClosures(load) {
-		for _, g := range reachableSamePkg(g0, 2) {
-			if g == load {
-				continue
-			}
-			for _, ci := range Calls(g) {
-				if ci.Static != nil && ci.Static.Name() == "JSONToPlainStringMap" {
-					onFile = g
-				}
-			}
-		}
-	}
-	// also package-level helpers handed to the loop as callbacks
-	if onFile == nil {
-		for _, g := range c.P.PkgFuncs("i18n/fsi18loader") {
-			for _, ci := range Calls(g) {
-				if ci.Static != nil && ci.Static.Name() == "JSONToPlainStringMap" {
-					onFile = g
-				}
-			}
-		}
-	}
-	if onFile == nil {
-		c.Bad("R5", "translation file callback", load.Pos(), "no callback that parses a file with JSONToPlainStringMap found")
-	} else {
-		facts := factsFor(onFile)
-		n := 0
-		for _, ci := range Calls(onFile) {
-			call, ok := ci.Instr.(*ssa.Call)
+	for _, g := range append(withClosures(load), reachableSamePkg(load, 2)...) {
+		eachInstr(g, func(_ *ssa.BasicBlock, _ int, in ssa.Instruction) {
+			st, ok := in.(*ssa.Store)
 			if !ok {
-				continue
+				return
 			}
+			fa, ok := st.Addr.(*ssa.FieldAddr)
+			if !ok || !strings.HasSuffix(fieldName(fa), "LoopData.OnFile") {
+				return
+			}
+			v := unwrapChange(resolve(st.Val))
+			switch x := v.(type) {
+			case *ssa.MakeClosure:
+				if fn, ok := x.Fn.(*ssa.Function); ok {
+					onFile = fn
+					if strings.HasSuffix(fn.Name(), "$bound") && fn.Object() != nil {
+						if fo, ok := fn.Object().(*types.Func); ok {
+							if real := fn.Prog.FuncValue(fo); real != nil {
+								onFile = real
+							}
+						}
+					}
+				}
+			case *ssa.Function:
+				onFile = x
+			}
+		})
+	}
+	if onFile == nil {
+		c.Bad("R5", "translation file callback", load.Pos(), "cannot find the function stored into LoopData.OnFile")
+	} else {
+		group := append([]*ssa.Function{onFile}, privateHelpersOf(onFile)...)
+		n := 0
+		// propagates: the error of call (in g) is returned by g on its non-nil edge, and so on up to onFile
+		var propagates func(g *ssa.Function, call *ssa.Call, depth int) bool
+		propagates = func(g *ssa.Function, call *ssa.Call, depth int) bool {
 			idx := errResultIndex(call.Call.Signature())
-			if idx < 0 {
-				continue
+			gei := errResultIndex(g.Signature)
+			if idx < 0 || gei < 0 || depth > 3 {
+				return false
 			}
-			n++
-			errs := resultN(call, idx)
+			facts := factsFor(g)
 			okE := false
-			for _, ev := range errs {
-				for _, r := range returnsOf(onFile) {
-					if facts.KnownNil(r.Block(), ev, false) && (resolve(r.Results[0]) == ev || sameValue(resolve(r.Results[0]), ev)) {
+			for _, r := range returnsOf(g) {
+				rv := resolve(r.Results[gei])
+				if ex, ok := rv.(*ssa.Extract); ok && ex.Tuple == ssa.Value(call) && ex.Index == idx {
+					if facts.KnownNil(r.Block(), rv, false) {
+						okE = true
+					}
+					// `return f(x)`: the tuple is handed on as it is
+					same := true
+					for _, o := range r.Results {
+						if e2, ok := resolve(o).(*ssa.Extract); !ok || e2.Tuple != ssa.Value(call) {
+							same = false
+						}
+					}
+					if same {
+						okE = true
+					}
+				}
+				if rv == ssa.Value(call) {
+					okE = true
+				}
+				for _, ev := range resultN(call, idx) {
+					if facts.KnownNil(r.Block(), ev, false) && (rv == ev || sameValue(rv, ev)) {
 						okE = true
 					}
 				}
 			}
-			nm := ci.Name()
-			c.Check(okE, "R5", "callback returns the error of "+lastSeg(nm), ci.Pos(), "returned on its non-nil edge", "a read/parse error of a translation file is dropped — Load reports success although keys are missing")
+			if !okE {
+				return false
+			}
+			if g == onFile {
+				return true
+			}
+			// g's own error must travel on from each of its call sites in the group
+			sites := 0
+			for _, h := range group {
+				for _, ci := range Calls(h) {
+					if ci.Static == g {
+						if hc, ok := ci.Instr.(*ssa.Call); ok {
+							sites++
+							if !propagates(h, hc, depth+1) {
+								return false
+							}
+						}
+					}
+				}
+			}
+			return sites > 0
+		}
+		for _, g := range group {
+			for _, ci := range Calls(g) {
+				call, ok := ci.Instr.(*ssa.Call)
+				if !ok {
+					continue
+				}
+				isRead := ci.Method != nil && ci.Method.Name() == "ReadFile"
+				isParse := ci.Static != nil && ci.Static.Name() == "JSONToPlainStringMap"
+				if !isRead && !isParse {
+					continue
+				}
+				n++
+				c.Check(propagates(g, call, 0), "R5", "callback returns the error of "+lastSeg(ci.Name()), ci.Pos(), "returned on its non-nil edge (up to the callback's result)", "a read/parse error of a translation file is dropped — Load reports success although keys are missing")
+			}
 		}
 		c.Floor("R5", n, 2)
 		// Set gets the parsed map
 		okSet := false
-		for _, ci := range Calls(onFile) {
-			if ci.Method != nil && ci.Method.Name() == "Set" {
-				okSet = hasOrigin(Origins(ci.Arg(0), FlowOpts{}), func(o Origin) bool { return o.Kind == "call" && strings.Contains(o.Name, "JSONToPlainStringMap#0") })
+		for _, g := range group {
+			for _, ci := range Calls(g) {
+				if ci.Method != nil && ci.Method.Name() == "Set" {
+					isParsed := func(o Origin) bool { return o.Kind == "call" && strings.Contains(o.Name, "JSONToPlainStringMap#0") }
+					stopAtParser := func(v ssa.Value) (Origin, bool) {
+						if ex, ok := v.(*ssa.Extract); ok && ex.Index == 0 {
+							if call, ok := ex.Tuple.(*ssa.Call); ok {
+								if f := call.Call.StaticCallee(); f != nil && f.Name() == "JSONToPlainStringMap" {
+									return Origin{Kind: "call", Name: qualName(f) + "#0", Val: v}, true
+								}
+							}
+						}
+						return Origin{}, false
+					}
+					okSet = hasOrigin(Origins(ci.Arg(0), FlowOpts{}), isParsed) || hasOrigin(Origins(ci.Arg(0), FlowOpts{Interproc: 3, Stop: stopAtParser}), isParsed)
+				}
 			}
 		}
 		c.Check(okSet, "R5", "callback merges the parsed map", onFile.Pos(), "i18.Set(parsed map)", "the parsed translations are not handed to the store")
 	}
-	var runC, waitC, errsC ssa.Instruction
-	for _, ci := range Calls(load) {
-		if ci.Static == nil {
-			continue
+	// Run -> Wait -> Errors, in Load or in a private helper whose result Load returns
+	runFn := load
+	find := func(g *ssa.Function) (runC, waitC, errsC ssa.Instruction) {
+		for _, ci := range Calls(g) {
+			if ci.Static == nil {
+				continue
+			}
+			switch qualName(ci.Static) {
+			case mq(loopPkg, "Loop", "Run"):
+				runC = ci.Instr
+			case mq(loopPkg, "Loop", "Wait"):
+				waitC = ci.Instr
+			case mq(loopPkg, "Loop", "Errors"):
+				errsC = ci.Instr
+			}
 		}
-		switch qualName(ci.Static) {
-		case mq(loopPkg, "Loop", "Run"):
-			runC = ci.Instr
-		case mq(loopPkg, "Loop", "Wait"):
-			waitC = ci.Instr
-		case mq(loopPkg, "Loop", "Errors"):
-			errsC = ci.Instr
+		return
+	}
+	runC, waitC, errsC := find(load)
+	handsOn := true
+	if runC == nil {
+		for _, g := range reachableSamePkg(load, 2) {
+			if r, w, e := find(g); r != nil && w != nil && e != nil {
+				runC, waitC, errsC, runFn = r, w, e, g
+				handsOn = false
+				for _, ci := range Calls(load) {
+					if ci.Static == g {
+						for _, r := range returnsOf(load) {
+							if resolve(r.Results[0]) == ci.Value() {
+								handsOn = true
+							}
+						}
+					}
+				}
+			}
 		}
 	}
-	okL := runC != nil && waitC != nil && errsC != nil && dominates(runC, waitC) && dominates(waitC, errsC)
+	okL := handsOn && runC != nil && waitC != nil && errsC != nil && dominates(runC, waitC) && dominates(waitC, errsC)
 	if okL {
 		okL = false
-		for _, r := range returnsOf(load) {
+		for _, r := range returnsOf(runFn) {
 			if derivesFrom(r.Results[0], errsC.(ssa.Value), 0) {
 				okL = true
 			}
@@ -458,4 +564,67 @@ func rulesC20(c *Ctx) {
 
 	// ---- R7 the walker behind Load visits every entry ----
 	c.Floor("R7", ruleWalkersVisitAll(c, "R7"), 2)
+}
+
+// noBackslashIn: the facts say that byte slice / string v contains no backslash.
+func noBackslashIn(fs factSet, v ssa.Value) bool {
+	isBS := func(a ssa.Value) bool {
+		if k, ok := constInt(a); ok && k == '\\' {
+			return true
+		}
+		if s, ok := constString(a); ok && s == "\\" {
+			return true
+		}
+		if cv, ok := a.(*ssa.Convert); ok {
+			if s, ok := constString(cv.X); ok && s == "\\" {
+				return true
+			}
+		}
+		return false
+	}
+	for k := range fs {
+		// !Contains(v, "\\")
+		if call, ok := k.v.(*ssa.Call); ok && !k.pol {
+			if f := call.Call.StaticCallee(); f != nil {
+				switch qualName(f) {
+				case "bytes.Contains", "strings.Contains", "bytes.ContainsRune", "strings.ContainsRune", "bytes.ContainsAny", "strings.ContainsAny":
+					if resolve(call.Call.Args[0]) == v && isBS(call.Call.Args[1]) {
+						return true
+					}
+				}
+			}
+		}
+		// IndexByte(v, '\\') == -1 / < 0
+		bo, ok := k.v.(*ssa.BinOp)
+		if !ok {
+			continue
+		}
+		call, ok := bo.X.(*ssa.Call)
+		if !ok {
+			continue
+		}
+		f := call.Call.StaticCallee()
+		if f == nil {
+			continue
+		}
+		switch qualName(f) {
+		case "bytes.IndexByte", "strings.IndexByte", "bytes.IndexRune", "strings.IndexRune", "bytes.Index", "strings.Index":
+		default:
+			continue
+		}
+		if resolve(call.Call.Args[0]) != v || !isBS(call.Call.Args[1]) {
+			continue
+		}
+		kk, isK := constInt(bo.Y)
+		if !isK {
+			continue
+		}
+		absent := (bo.Op == token.EQL && kk == -1 && k.pol) || (bo.Op == token.NEQ && kk == -1 && !k.pol) ||
+			(bo.Op == token.LSS && kk == 0 && k.pol) || (bo.Op == token.GEQ && kk == 0 && !k.pol) ||
+			(bo.Op == token.LEQ && kk == -1 && k.pol) || (bo.Op == token.GTR && kk == -1 && !k.pol)
+		if absent {
+			return true
+		}
+	}
+	return false
 }
